@@ -149,4 +149,22 @@ theorem index_history_from (threshold : Nat) (side : H → V → Bool) (choose :
     ∃ s', irun threshold side choose s ops = .ok s' ∧ IInv side s' ∧ s'.store = ops.foldl ispec s.store :=
   irun_inv threshold side choose ops s h
 
+/-- **reopen**: the index rebuilt by `NewCollection` — every live document inserted, in whatever order the
+    record index is iterated — satisfies the full invariant again, so `index_history_from` covers every
+    history that continues after a reopen -/
+theorem index_after_reopen (threshold : Nat) (side : H → V → Bool) (choose : List Nat → Option H)
+    (store : Nat → Option V) (docs : List Nat) (hnd : docs.Nodup) (hex : ∀ i, i ∈ docs ↔ store i ≠ none) :
+    ∃ t', docs.foldlM (fun t i => match store i with
+        | some v => insert threshold side choose store i v t
+        | none => .panic "unreachable") (.leaf []) = .ok t' ∧
+      IInv side { store := store, live := docs, tree := t' } := by
+  have hst : ∀ i ∈ docs, (store i).isSome = true := by
+    intro i hi
+    have := (hex i).mp hi
+    cases h : store i with
+    | none => exact absurd h this
+    | some v => rfl
+  obtain ⟨t', e, inv⟩ := rebuild threshold side choose store docs hst (.leaf []) [] (empty_inv side store) (by simp) hnd
+  exact ⟨t', e, ⟨by simpa using inv, hnd, hex⟩⟩
+
 end Syzgy.C05
